@@ -242,6 +242,7 @@ def case_corpus(ctx, idx, path):
     open(os.path.join(d, f0), "wb").write(src)
     rc, t1, se = asn1c_E(asn1c, d, [f0])
     res["E0"] = rc
+    res["old_syntax"] = "Obsolete X.208 syntax" in se
     if rc != 0:
         shutil.rmtree(d, ignore_errors=True)
         return res
@@ -491,9 +492,15 @@ def main(tier):
         if r["E0"] != 0:
             run.count("corpus_not_standalone")
             continue
+        src = open(p, "r", errors="replace").read()
+        # the property ranges over modern syntax: X.208 leftovers (ANY [DEFINED BY], unnamed
+        # components — asn1c itself warns "Obsolete X.208 syntax") are outside the quantifier;
+        # decided on the input's features, not on the outcome
+        if r["old_syntax"] or re.search(r"\bANY\b", strip_comments(src)):
+            run.count("corpus_old_syntax_excluded")
+            continue
         run.case("corpus:" + rel)
         run.count("corpus_parsed")
-        src = open(p, "r", errors="replace").read()
         t1 = r["t1"].decode("latin1")
         rep = {"file": rel, "replay_cmd": "asn1c -E %s > t1; asn1c -E t1 > t2; cmp t1 t2" % rel}
         if not r["E_det"]:
